@@ -524,14 +524,16 @@ impl<'l, Data> EventLoop<'l, Data> {
 
             if let Some(disp) = opt_disp {
                 trace!(source = reg_token.get_id(), "Dispatching events for source");
-                let mut ret = disp.process_events(event.readiness, event.token, data)?;
+                let ret = disp.process_events(event.readiness, event.token, data);
 
                 // if the returned PostAction is Continue, it may be overwritten by a user-specified pending action
+                // (always consume it, also if the processing failed: it must never be applied to another source)
                 let pending_action = self
                     .handle
                     .inner
                     .pending_action
                     .replace(PostAction::Continue);
+                let mut ret = ret?;
                 if let PostAction::Continue = ret {
                     ret = pending_action;
                 }
